@@ -376,7 +376,7 @@ def gen_cases(ctx):
     """list of (spec, items(ordered), container, n, tags)."""
     rng = ctx.rng('cases')
     cases = []
-    n_models = 5 * ctx.scale if ctx.tier == 'quick' else 40
+    n_models = 8 if ctx.tier == "quick" else 40
     specs = [make_spec(rng, d=3, kind='str'), make_spec(rng, d=2, kind='int'), make_spec(rng, d=4, kind='str')]
     specs += [make_spec(rng) for _ in range(max(0, n_models - len(specs)))]
     for si, spec in enumerate(specs):
